@@ -24,11 +24,15 @@ pub enum AOp {
     Raise(u8),
     Close,
     Pause,
+    /// an unrelated signal with a third-party handler installed *without* SA_RESTART, directed at
+    /// the consuming thread: a blocking read of the self-pipe fails with EINTR and must be retried
+    Interrupt,
 }
 
 #[derive(Clone, Debug, Serialize, Deserialize)]
 pub struct AdapterCase {
-    /// 0 tokio, 1 async-std
+    /// 0 tokio, 1 async-std, 2 a plain thread in `Signals::forever()`, 3 a plain thread in a
+    /// `wait()` loop (the blocking front-end, really blocked in read(2))
     pub runtime: u8,
     pub init: Vec<u8>,
     pub ops: Vec<AOp>,
@@ -51,8 +55,9 @@ pub fn strategy() -> BoxedStrategy<AdapterCase> {
         3 => (0u8..3).prop_map(AOp::Raise),
         1 => Just(AOp::Close),
         1 => Just(AOp::Pause),
+        2 => Just(AOp::Interrupt),
     ];
-    let plain = (0u8..2, vec(0u8..3, 1..4), vec(op, 1..10))
+    let plain = (0u8..4, vec(0u8..3, 1..4), vec(op, 1..10))
         .prop_map(|(runtime, init, mut ops)| {
             // only watched signals are raised; nothing is raised after close
             if let Some(p) = ops.iter().position(|o| *o == AOp::Close) {
@@ -219,9 +224,38 @@ fn child(case: &AdapterCase, fd: i32) {
     let (handle_tx, handle_rx) = std::sync::mpsc::channel::<signal_hook::iterator::Handle>();
     let sh2 = shared.clone();
     let w2 = watched.clone();
-    let rt_kind = case.runtime % 2;
+    let rt_kind = case.runtime % 4;
+    // the third-party handler for the interrupting signal: installed directly, no SA_RESTART
+    extern "C" fn noop(_: c_int) {}
+    unsafe {
+        let mut sa: libc::sigaction = std::mem::zeroed();
+        sa.sa_sigaction = noop as usize;
+        libc::sigaction(libc::SIGURG, &sa, std::ptr::null_mut());
+    }
+    let panicked = Arc::new(AtomicBool::new(false));
+    let p2 = panicked.clone();
     let consumer = std::thread::spawn(move || {
-        if rt_kind == 0 {
+        if rt_kind >= 2 {
+            let r = std::panic::catch_unwind(std::panic::AssertUnwindSafe(|| {
+                let mut signals = signal_hook::iterator::Signals::new(&w2).expect("Signals");
+                handle_tx.send(signals.handle()).unwrap();
+                if rt_kind == 2 {
+                    for s in signals.forever() {
+                        record(&sh2, s);
+                    }
+                } else {
+                    while !signals.is_closed() {
+                        for s in signals.wait() {
+                            record(&sh2, s);
+                        }
+                    }
+                }
+            }));
+            if r.is_err() {
+                p2.store(true, Ordering::SeqCst);
+            }
+            sh2.ended.store(true, Ordering::SeqCst);
+        } else if rt_kind == 0 {
             let rt = tokio::runtime::Builder::new_current_thread().enable_io().build().expect("tokio runtime");
             rt.block_on(async {
                 let mut signals = signal_hook_tokio::Signals::new(&w2).expect("tokio Signals");
@@ -278,6 +312,14 @@ fn child(case: &AdapterCase, fd: i32) {
                 closed = true;
             }
             AOp::Pause => std::thread::sleep(std::time::Duration::from_micros(300)),
+            AOp::Interrupt => {
+                use std::os::unix::thread::JoinHandleExt;
+                if !shared.ended.load(Ordering::SeqCst) {
+                    // give the consumer time to block again, then interrupt it
+                    std::thread::sleep(std::time::Duration::from_micros(200));
+                    unsafe { libc::pthread_kill(consumer.as_pthread_t(), libc::SIGURG) };
+                }
+            }
         }
     }
     if !closed {
@@ -287,7 +329,7 @@ fn child(case: &AdapterCase, fd: i32) {
     let ended = wait_until(&move || sh.ended.load(Ordering::SeqCst), 6000);
     emit(
         fd,
-        &json!({"k": "end", "ended": ended, "is_closed": handle.is_closed(), "counts": [shared.counts[0].load(Ordering::SeqCst), shared.counts[1].load(Ordering::SeqCst), shared.counts[2].load(Ordering::SeqCst)], "other": shared.other.load(Ordering::SeqCst)}),
+        &json!({"k": "end", "ended": ended, "panicked": panicked.load(Ordering::SeqCst), "is_closed": handle.is_closed(), "counts": [shared.counts[0].load(Ordering::SeqCst), shared.counts[1].load(Ordering::SeqCst), shared.counts[2].load(Ordering::SeqCst)], "other": shared.other.load(Ordering::SeqCst)}),
     );
     if ended {
         let _ = consumer.join();
@@ -300,7 +342,7 @@ pub fn run_case(case: &AdapterCase) -> CaseReport {
     let (recs, end) = fork_stream(40_000, move |fd| child(&c2, fd));
     let mut rep = CaseReport::default();
     rep.hash = hash_of(&format!("{:?}", case));
-    let rt = ["tokio", "async-std"][case.runtime as usize % 2];
+    let rt = if case.streams > 0 { ["tokio", "async-std"][case.runtime as usize % 2] } else { ["tokio", "async-std", "blocking forever()", "blocking wait() loop"][case.runtime as usize % 4] };
     rep.class("real-adapter");
     rep.class(rt);
     rep.nontrivial = case.ops.iter().any(|o| matches!(o, AOp::RaiseAwait(_)));
@@ -331,6 +373,14 @@ pub fn run_case(case: &AdapterCase) -> CaseReport {
         rep.viol("C09/adapter-lost-signal", format!("{}: signal {} was delivered while the stream was open and being polled, but the stream did not yield it within 6 s", rt, r["sig"]));
     }
     if let Some(e) = recs.iter().find(|r| r["k"] == "end") {
+        if e["panicked"] == true {
+            for k in ["C09/consumer-panic", "C11/consumer-panic"] {
+                rep.viol(k, format!("{}: the consuming thread panicked (a blocking read interrupted by an unrelated signal must simply be retried)", rt));
+            }
+        }
+        if case.ops.iter().any(|o| *o == AOp::Interrupt) {
+            rep.class("blocking-read-interrupted");
+        }
         if e["ended"] != true {
             rep.viol("C11/adapter-stream-never-ends", format!("{}: 6 s after close() the stream still had not ended (the polling task is stranded)", rt));
         }
